@@ -152,6 +152,7 @@ type Exec struct {
 	syms         []symInfo
 	nondet       []NondetRec
 	objSeq       int
+	srcExtra     map[string]int // packages executed from source within the dynamic extent of a model (e.g. net/url accessors on a concrete URL)
 	lazyMemo     map[string]Value
 	depth        int
 	panicking    *goPanic
@@ -211,6 +212,7 @@ func NewExec(prog *ssa.Program, cfg *Config) *Exec {
 	e.loopCache = map[*ssa.Function]map[*ssa.BasicBlock]bool{}
 	e.summaries = map[string]*summary{}
 	e.declared = map[string]bool{}
+	e.srcExtra = map[string]int{}
 	e.lazyMemo = map[string]Value{}
 	e.stubs = map[string]int{}
 	e.notes = map[string]string{}
@@ -1034,6 +1036,7 @@ func (e *Exec) resetPath() {
 	e.declared = map[string]bool{}
 	e.syms = nil
 	e.nondet = nil
+	e.srcExtra = map[string]int{}
 	e.lazyMemo = map[string]Value{}
 	e.depth = 0
 	e.panicking = nil
